@@ -32,6 +32,16 @@ CLAIMED = {
         "Trusted: exact big-rational rounding oracle (vcore), the harness's own decoder of the packed format; formats are limited to the compiled catalogue (core group).",
         "property-based testing (proptest, one runner per format) against an exact-arithmetic reference oracle",
     ),
+    "C12": (
+        "Bounded-exhaustive: every string up to length 4 (thorough 5) over a per-format number alphabet for every valid separator-free compiled format (18 single flags, all valid flag pairs, 90 random 3-8 flag words, 27+ base prefix/suffix variants, 147 prebuilt language formats, radix and write-flag formats) x {f64, f32, i32/u64}: lexical's complete parser must accept exactly what the reference grammar derives, with the exactly rounded / exact integer value. The reference grammar is validated against the 216 hidden doc TEST assertions at setup. Per-flag dependence counts are reported.",
+        "Trusted: reference grammar transcribed from the NumberFormatBuilder documentation (harness/vcore/refparse.rs); only compiled catalogue formats are reached; the oracle abstains on a bare sign when digits are optional. Two documented-grammar deviations are recorded as known findings (empty string / digit-less integers accepted when digits are optional).",
+        "bounded-exhaustive enumeration against a reference grammar (model-based differential)",
+    ),
+    "C13": (
+        "For every valid compiled separator format (14 uniform modes, 42 single-component modes, 60 mixed triples, special/radix-16/prefix/syntax combinations) x {f64(+f32), u32/i64}: all strings up to length 6 (thorough 7) over {-,+,0,1,sep,point,exponent,junk}, plus generated numbers (midpoint-derived up to 1200 bytes, integer edges) with separator runs inserted at arbitrary positions. Relations: accepted exactly where the documented classifier enables every run, value of the digits; deleting separators keeps acceptance/value (complete, and the prefix consumed by the partial parser); separator-free inputs are treated identically by the separator-free counterpart format (complete and partial).",
+        "Trusted: separator classifier transcribed from docs/DigitSeparators.md and the per-mode examples documented in skip.rs; only ~130 of the 16^3 mode triples are compiled.",
+        "bounded-exhaustive enumeration + property-based testing: metamorphic relations and a reference classifier",
+    ),
     "C19": (
         "The C01/C05 generators for STANDARD and every compiled radix / mixed-base format; each input is parsed with lossy=false and lossy=true (complete, and partial with trailing junk): identical accept/reject, count, error; accepted results within one bit-pattern neighbour of the exactly rounded value, identical for exact-fast-path inputs and for zero/infinite results (except in the last rounding zone next to MAX / min subnormal, where the statement's neighbour clause also applies and both outcomes are accepted).",
         "Trusted: exact oracle; the harness's (conservative) definition of 'decided by the exact fast path'.",
